@@ -100,7 +100,7 @@ def gen_volume(rng, mx):
 
 
 BAD_VOLUMES = ["neg", "nan", "inf", "huge", "over_max", "none", "text"]
-BAD_POSITIONS = ["none", "str", "neg", "float"]
+BAD_POSITIONS = ["none", "str", "neg", "float", "zero"]  # (well positions are 1-based: there is no position 0)
 
 
 def bad_volume(rng, cls, mx):
@@ -116,7 +116,7 @@ def bad_volume(rng, cls, mx):
 
 
 def bad_position(rng, cls):
-    return {"none": None, "str": rng.choice(["1", "A01"]), "neg": -rng.randint(1, 50), "float": rng.choice([1.5, 2.25, 96.5])}[cls]
+    return {"none": None, "str": rng.choice(["1", "A01"]), "neg": -rng.randint(1, 50), "float": rng.choice([1.5, 2.25, 96.5]), "zero": 0}[cls]
 
 
 def n_cases(tier):
